@@ -24,6 +24,7 @@
 #include "types.h"
 #include "convert.h"
 #include "values.h"
+#include "io.h"
 #include "mc.hpp"
 
 // the C++ library overrides mpt_meta_buffer (mpt++/meta_buffer.cpp); a weak reference does not
@@ -387,6 +388,12 @@ struct Inst {
 				else if (sp.bytes.size()) { mpt_array_append((array *) &arr, sp.bytes.size(), sp.bytes.data()); if (arr.buf && !sp.untyped) arr.buf->_content_traits = mpt_type_traits('c'); }
 			}
 			mt = sp.fam == F_BUFFER ? mpt_meta_buffer(sp.null_arr ? 0 : (array *) &arr) : mpt_meta_arguments(sp.null_arr ? 0 : (array *) &arr);
+			if (arr.buf) { ext = arr.buf; extsz = sizeof(buffer) + arr.buf->_size; }
+			mpt_array_clone((array *) &arr, 0);
+			break; }
+		case F_CXXBUF: {
+			if (sp.bytes.size()) { mpt_array_append((array *) &arr, sp.bytes.size(), sp.bytes.data()); if (arr.buf) arr.buf->_content_traits = mpt_type_traits('c'); }
+			mt = io::buffer::metatype::create((array *) &arr);
 			if (arr.buf) { ext = arr.buf; extsz = sizeof(buffer) + arr.buf->_size; }
 			mpt_array_clone((array *) &arr, 0);
 			break; }
@@ -1194,6 +1201,17 @@ static void fam_buffer(Tier, std::vector<Spec> &v)
 }
 static void fam_cxx(Tier, std::vector<Spec> &v)
 {
+	// C++ buffer argument iterator (what mpt_meta_buffer() is in programs linking mpt++): NUL terminated records of a character array
+	{
+		std::vector<std::vector<std::string>> sq;
+		seqs({ "cmd", "one", "2", "" }, 3, sq, true);
+		for (auto &q : sq) {
+			Spec s; s.fam = F_CXXBUF; s.rtype = 'B';
+			for (auto &x : q) { s.bytes += x; s.bytes.push_back('\0'); s.den.list.push_back(Obs::bytes(x + std::string(1, '\0'))); }
+			Den &d = s.den; d.cls = Den::WELL; d.kind = Den::LIST; d.fam = "cxx-buffer"; d.why = "records"; d.have_n = true; d.nlo = d.nhi = q.size(); d.plain = true;
+			v.push_back(s);
+		}
+	}
 	for (int ints = 0; ints < 2; ++ints) for (size_t L = 0; L <= 4; ++L) for (int step : { 1, 2, 3, -1, -2, -3 }) {
 		Spec s; s.fam = ints ? F_CXXI : F_CXXD; s.step = step;
 		for (size_t i = 0; i < L; ++i) s.grid.push_back(ints ? (double) (7 * (int) i - 4) : 0.5 + 1.25 * i);
@@ -1373,7 +1391,7 @@ void mc_explore(Run &r, const std::string &job)
 	if (job == "profile:4") { r.require("closed-form-checked:poly"); r.require("closed-form-checked:boundary"); r.require("closed-form-checked:linear"); }
 	if (job == "text") { r.require("accepted:text"); r.require("convert_refused:y"); r.require("convert_accepted:i"); r.require("convert_accepted:k"); }
 	if (job == "buffer") { r.require("accepted:buffer"); r.require("accepted:args"); }
-	if (job == "cxx") { r.require("accepted:cxx-source"); r.require("empty-sources"); }
+	if (job == "cxx") { r.require("accepted:cxx-source"); r.require("accepted:cxx-buffer"); r.require("empty-sources"); }
 	if (job == "api") r.require("accepted:boundary");
 	r.require("sources_state_graph_closed");
 	dfs(r, [&](Ctx &x) { uint64_t i = x.choose(v.size()); process(r, v[i], i, 0); });
